@@ -524,10 +524,18 @@ Fixpoint retype (ss : list (option svc)) (name : str) (ty : option stype) : list
   | Some s :: r => if seq_eq (s_name s) name then Some (set_type s ty) :: r else Some s :: retype r name ty
   | None :: r => None :: retype r name ty
   end.
+(* Each client records its services in 32-bit masks indexed by slot, so a service that would need a slot of
+   index >= 32 is refused: iauth_xquery_config_service logs an error and ignores the entry (D27). *)
+Definition max_slots : nat := 32.
+(* index of the first empty slot, or the length of the vector if there is none *)
+Fixpoint free_index (ss : list (option svc)) : nat :=
+  match ss with [] => O | None :: _ => O | Some _ :: r => S (free_index r) end.
 Definition config_service (ss : list (option svc)) (name ty : str) : list (option svc) :=
   let ss1 := if find_name ss name then ss
-             else let n := {| s_name := name; s_type := Login; s_conf := false; s_refs := 0%Z |} in
-                  if has_empty ss then fill_empty ss n else ss ++ [Some n] in
+             else if (free_index ss <? max_slots)%nat then
+                  let n := {| s_name := name; s_type := Login; s_conf := false; s_refs := 0%Z |} in
+                  if has_empty ss then fill_empty ss n else ss ++ [Some n]
+             else ss (* no room: the entry is ignored; retype below finds no such name and changes nothing *) in
   retype ss1 name (type_of_name ty).
 Definition unconf (o : option svc) : option svc :=
   match o with Some s => Some {| s_name := s_name s; s_type := s_type s; s_conf := false; s_refs := s_refs s |} | None => None end.
